@@ -1156,6 +1156,7 @@ func checkSetVariablePrimitive(w *World, r *Report) {
 
 func checkSetNode(w *World, r *Report) {
 	checkSetVariablePrimitive(w, r)
+	checkNoVariableRemoval(w, r)
 	fn := w.ssaFunc(w.method("SetNode", "Render"))
 	setVar := w.method("RenderContext", "SetVariable")
 	evalM := w.method("RenderContext", "EvaluateExpression")
@@ -1593,4 +1594,93 @@ func checkIfBranchesKept(w *World, r *Report) {
 		})
 	}
 	r.floor("constructions of IfNode condition/body lists in the parser", n, 2)
+}
+
+// checkNoVariableRemoval — R09.12: what a template has set stays set.  Entries of a render
+// context's variable map are removed only where the context is recycled (the functions that
+// take it from or return it to the pool) and by the restoring half of the shadow helper (which
+// puts back exactly the binding it saved).  A scope exit that deletes "every name bound since"
+// makes a `set` inside a loop or block invisible to what is rendered after it.
+func checkNoVariableRemoval(w *World, r *Report) {
+	helpers := w.shadowHelpers()
+	restorer := map[*ssa.Function]bool{}
+	for h := range helpers {
+		for _, a := range h.AnonFuncs {
+			restorer[a] = true
+		}
+		if h.Signature.Results().Len() == 1 {
+			if m := w.restorerMethodOf(h.Signature.Results().At(0).Type()); m != nil {
+				restorer[m] = true
+			}
+		}
+		instrsOf(h, func(in ssa.Instruction) {
+			if mc, ok := in.(*ssa.MakeClosure); ok && len(mc.Bindings) == 1 {
+				if bf, ok := mc.Fn.(*ssa.Function); ok && bf.Synthetic != "" {
+					if m, ok := bf.Object().(*types.Func); ok && m != nil {
+						restorer[w.ssaFunc(m)] = true
+					}
+				}
+			}
+		})
+	}
+	_, sp := w.ssa()
+	pool := sp.Var("renderContextPool")
+	touchesPool := func(fn *ssa.Function) bool {
+		found := false
+		instrsOf(fn, func(in ssa.Instruction) {
+			if c, ok := in.(ssa.CallInstruction); ok {
+				f := calleeFunc(c)
+				if (isFunc(f, "sync", "Pool", "Get") || isFunc(f, "sync", "Pool", "Put")) && len(c.Common().Args) > 0 && globalOf(c.Common().Args[0]) == pool {
+					found = true
+				}
+			}
+		})
+		return found
+	}
+	n, bad := 0, 0
+	for _, fn := range w.pkgFuncs() {
+		instrsOf(fn, func(in ssa.Instruction) {
+			c, ok := in.(*ssa.Call)
+			if !ok {
+				return
+			}
+			b, ok := c.Call.Value.(*ssa.Builtin)
+			if !ok || (b.Name() != "delete" && b.Name() != "clear") || len(c.Call.Args) == 0 {
+				return
+			}
+			if _, ok := fieldLoad(origin(c.Call.Args[0]), "RenderContext", "context"); !ok {
+				return
+			}
+			n++
+			root := fn
+			for root.Parent() != nil {
+				root = root.Parent()
+			}
+			switch {
+			case restorer[fn]:
+				r.ok("R09.12", ssaName(fn), "removal from the variable map", w.posOf(in.Pos()), "restoring half of the shadow helper", false)
+			case touchesPool(root) || touchesPool(fn):
+				r.ok("R09.12", ssaName(fn), "removal from the variable map", w.posOf(in.Pos()), "the context is being recycled", false)
+			default:
+				// a helper only called from recycling functions
+				okCallers := false
+				if ins := realInEdges(root); len(ins) > 0 {
+					okCallers = true
+					for _, e := range ins {
+						if !touchesPool(e.Caller.Func) {
+							okCallers = false
+						}
+					}
+				}
+				if okCallers {
+					r.ok("R09.12", ssaName(fn), "removal from the variable map", w.posOf(in.Pos()), "helper of the recycling functions", false)
+					return
+				}
+				bad++
+				r.bad("R09.12", ssaName(fn), "removal from the variable map", w.posOf(in.Pos()), "variables are removed from a live render context outside the shadow/restore helper: a name a template assigned (in a loop body, an else branch, a block) disappears, so what is rendered afterwards does not see the value that was set")
+			}
+		})
+	}
+	r.Counts["removals from a context's variable map"] = n
+	_ = bad
 }
